@@ -85,7 +85,7 @@ theorem C06_grant_iff_true (env : Env) (st : Store) (node : NodeId) (tx : TxId) 
 theorem C06_grants_are_poll_results (env : Env) (st : Store) (node : NodeId) (max : Int) (now : Nat) (order : List Nat) :
     (getTxRequests env st node max now order).1.grants =
       ((getTxRequests env st node max now order).2.reverse.map (fun k => (⟨k, node, now, now⟩ : Grant))) ++ st.grants := by
-  obtain ⟨new, h1, h2⟩ := pollBuckets_grants env node max now order { st with clock := now } []
+  obtain ⟨new, h1, h2⟩ := pollBuckets_grants env node max order { st with clock := now } []
   unfold getTxRequests
   rw [h2, h1]
   simp [pollGrant]
@@ -162,11 +162,11 @@ theorem C06_poll_exact (env : Env) (st : Store) (hi : InvS env st) (node : NodeI
   have hi' := hi.setClock now hc
   constructor
   · intro tx htx
-    rcases pollBuckets_sound env node max now order _ [] hi' (Nat.le_refl _) tx htx with h | h
+    rcases pollBuckets_sound env node max order _ [] hi' tx htx with h | h
     · cases h
     · exact h
   · intro hlen tx hel hb
-    exact pollBuckets_complete env node max now order _ [] hi' (Nat.le_refl _) tx hlen hel hb
+    exact pollBuckets_complete env node max order _ [] hi' tx hlen hel hb
 
 /-- the invariant used above holds after every timed Clean-free history. -/
 theorem C06_invariant (env : Env) (ops : List Op) (hops : noClean ops) (ht : timed 0 ops) :
@@ -208,7 +208,7 @@ theorem C06_granted_not_recorded (env : Env) (st : Store) (hi : InvS env st) (no
   constructor
   · exact addTxID_true_not_waiting node tx now hi
   · intro h
-    rcases pollBuckets_granted_not_waiting node max now order [] (hi.setClock now hc) (Nat.le_refl _) tx h with h1 | h1
+    rcases pollBuckets_granted_not_waiting node max order [] (hi.setClock now hc) tx h with h1 | h1
     · cases h1
     · exact h1
 
@@ -269,30 +269,24 @@ theorem C06_conc_saved_iff_relevant (env : Env) (c : Config) (h : Reach env c) :
     c.st.saved = c.st.processed.filter (relevantB env) :=
   (InvC.reach h).s.saved
 
-/-
-FULL STATEMENT of "one request outstanding" for interleavings would be: for two grants of one txid,
-`earlier.time + timeout ≤ later.time`. That is FALSE for the code as written (witness:
-`C06_conc_stale_stamp_anomaly`): GetTxRequests stores the clock value read when the call STARTED in
-LastRequested, so a poll that is overtaken by more than the time-out moves LastRequested backwards.
-What holds in every interleaving is the statement about the stored stamp:
--/
-/-- **C06, sentence 2, all interleavings (spacing, measured from the stored stamp).** In every reachable
-    configuration two grants of one txid satisfy `earlier.stamp + timeout ≤ later.time`, where
-    `stamp ≤ time` is the value written to LastRequested (= `time` for AddTxID, = the poll's start
-    reading for GetTxRequests). Hence real-time spacing is at least the time-out minus the time the
-    earlier poll had been running, and exactly the time-out whenever the earlier grant came from AddTxID
-    or from a poll that had not been overtaken by a clock tick. -/
-theorem C06_conc_single_outstanding_partial (env : Env) (c : Config) (h : Reach env c) :
+/-- every grant stores the clock value of the moment it is decided (AddTxID and, since repository fix
+    9c84f1c, GetTxRequests too), in every interleaving. -/
+theorem C06_conc_stamp_is_time (env : Env) (c : Config) (h : Reach env c) :
+    ∀ g ∈ c.st.grants, g.stamp = g.time :=
+  StampEq.reach h
+
+/-- **C06, sentence 2, all interleavings (one request outstanding).** In every reachable configuration —
+    any number of goroutines, pollers overtaken by clock ticks and by each other in any way — two request
+    grants of one txid (to whichever peers, by AddTxID or GetTxRequests) are at least the request time-out
+    apart in model time. `grants` is newest first. -/
+theorem C06_conc_single_outstanding (env : Env) (c : Config) (h : Reach env c) :
     c.st.grants.Pairwise (fun later earlier => later.tx = earlier.tx →
-        earlier.stamp + env.timeout ≤ later.time ∧
-        earlier.time + env.timeout ≤ later.time + (earlier.time - earlier.stamp) ∧
-        (earlier.stamp = earlier.time → earlier.time + env.timeout ≤ later.time)) := by
+        earlier.time + env.timeout ≤ later.time) := by
   have hi := (InvC.reach h).s
+  have hs := StampEq.reach h
   refine List.Pairwise.imp_of_mem ?_ hi.spaced
   intro a b _ hb hab htx
-  have h1 := hab htx
-  have h2 := (hi.times b hb).1
-  exact ⟨h1, by omega, by intro he; omega⟩
+  rw [← hs b hb]; exact hab htx
 
 /-- **C06, sentence 2, all interleavings (never after delivery).** From a reachable configuration in
     which the txid is marked received, no schedule whatsoever adds a grant for it. -/
@@ -321,11 +315,11 @@ theorem C06_excluded_interrupt :
     let c := exec exEnv {} [.callDlv 1 5 true, .thread 0 0, .thread 0 1, .run]
     recvdB c.st 5 = true ∧ c.st.processed = [] ∧ c.st.dropped = [5] := by decide
 
-/-- the schedule of the anomaly: nodes 2 and 3 are recorded for tx 7 (requested from node 1 at time 0);
-    poll P1 (node 2) starts at time 1 but runs late; poll P2 (node 3) starts and grants at time 12; at
-    time 22 P1 reaches the entry, grants, and stamps LastRequested = 1 (each poll then releases the
-    bucket's read lock); at the same instant AddTxID by node 4 is granted too. -/
-def anomalySched : List Action :=
+/-- a schedule with two pollers overtaking each other: nodes 2 and 3 are recorded for tx 7 (requested
+    from node 1 at time 0); poll P1 (node 2) starts at time 1 but runs late; poll P2 (node 3) starts and
+    grants at time 12; at time 22 P1 reaches the entry and grants (each poll then releases the bucket's
+    read lock); at the same instant node 4 announces the tx. -/
+def overtakeSched : List Action :=
   [.callAnn 1 7, .thread 0 0,
    .callAnn 2 7, .thread 1 0, .thread 1 0,
    .callAnn 3 7, .thread 2 0, .thread 2 0,
@@ -334,11 +328,38 @@ def anomalySched : List Action :=
    .tick 10, .thread 3 0, .thread 3 0, .thread 3 0,
    .callAnn 4 7, .thread 5 0, .thread 5 0]
 
-/-- **Finding (code as it is).** Two requests for the same txid granted at the same instant (time 22,
-    to nodes 2 and 4) although the time-out is 10: the real-time version of "one outstanding request"
-    fails in this interleaving. (node, time, stamp), newest first. -/
-theorem C06_conc_stale_stamp_anomaly :
-    (exec exEnv {} anomalySched).st.grants.map (fun g => (g.node, g.time, g.stamp))
+/-- with the current code P1's grant is stamped 22, so node 4 is refused. (node, time, stamp), newest first. -/
+theorem C06_overtaken_poll_current :
+    (exec exEnv {} overtakeSched).st.grants.map (fun g => (g.node, g.time, g.stamp))
+      = [(2, 22, 22), (3, 12, 12), (1, 0, 0)]
+    ∧ (exec exEnv {} overtakeSched).threads[5]? = some (.annDone 4 7 false) := by decide
+
+/-- GetTxRequests' entry section as it was BEFORE repository fix 9c84f1c: the time-out test reads the
+    clock (`st.clock`), but LastRequested gets `now`, the value read when the call started. -/
+def oldPollEntrySec (env : Env) (st : Store) (node : NodeId) (now : Nat) (tx : TxId) : Store × Bool :=
+  match st.ent tx with
+  | none => (st, false)
+  | some e =>
+    if e.received.isSome then (st, false)
+    else if !(e.nodeIDs.contains node) then (st, false)
+    else if st.clock < e.lastRequested + env.timeout then (st, false)
+    else
+      ((st.setEnt tx { e with lastRequested := now, nodeIDs := removeID e.nodeIDs node }).grant tx node now, true)
+
+/-- the same overtaking with the OLD section: requested from node 1 at 0; P2 (started 12) grants at 12;
+    P1 (started 1) reaches the entry at 22, grants and stamps 1; AddTxID by node 4 at 22 is granted too. -/
+def oldFormulaRun : Store × Bool :=
+  let s0 := (addTxID exEnv (addTxID exEnv (addTxID exEnv {} 1 7 0).1 2 7 0).1 3 7 0).1
+  let s1 := (oldPollEntrySec exEnv { s0 with clock := 12 } 3 12 7).1
+  let s2 := (oldPollEntrySec exEnv { s1 with clock := 22 } 2 1 7).1
+  addTxID exEnv s2 4 7 22
+
+/-- **Documentation of the repaired defect (old formula only).** With the start-of-call stamp two
+    requests for the same txid were granted at the same instant (time 22, nodes 2 and 4) although the
+    time-out is 10; this is what `corpus/C06/tx-stale-stamp.ops` checks on the real code. -/
+theorem C06_old_formula_stale_stamp_anomaly :
+    oldFormulaRun.2 = true ∧
+    oldFormulaRun.1.grants.map (fun g => (g.node, g.time, g.stamp))
       = [(4, 22, 22), (2, 22, 1), (3, 12, 12), (1, 0, 0)] := by decide
 
 /-- a history exercising every clause: same tx announced by three peers at one instant, retry after the
@@ -368,7 +389,7 @@ theorem exec_reach (env : Env) (sched : List Action) (c : Config) (h : Reach env
     | none => simpa [exec] using ih c h
     | some c' => simpa [exec] using ih c' (.step c c' a h hs)
 
-example : Reach exEnv (exec exEnv {} anomalySched) := exec_reach _ _ _ .init
+example : Reach exEnv (exec exEnv {} overtakeSched) := exec_reach _ _ _ .init
 example : (exec exEnv {} [.callDlv 1 5 false, .callDlv 2 5 false, .thread 0 0, .thread 1 0, .thread 1 0,
     .thread 0 0, .run]).st.processed = [5] := by decide
 
